@@ -240,7 +240,11 @@ func runC16(c *Ctx) {
 		for _, sec := range instants {
 			for _, loc := range locs {
 				t := time.Unix(sec, int64(r.Intn(1000000000))).In(loc)
+				before, _ := d.Bytes()
 				bd, berr := encrypted_leaseset.CreateBlindedDestination(d, secret, t)
+				after, _ := d.Bytes()
+				c.Check("blinding_leaves_destination_unchanged", bytes.Equal(before, after), "CreateBlindedDestination", [][]byte{before, i64(sec)}, "",
+					fmt.Sprintf("the caller's destination serialises differently after the call: %x -> %x (last 7 bytes)", tail7(before), tail7(after)))
 				if berr != nil {
 					c.Check("blinding_succeeds", false, "CreateBlindedDestination", [][]byte{i64(sec)}, "", fmt.Sprintf("%v", berr))
 					continue
@@ -301,4 +305,11 @@ func runC16(c *Ctx) {
 		c.Check("civil_date_reference", civilDate(sec) == time.Unix(sec, 0).UTC().Format("2006-01-02"), "civil date", [][]byte{i64(sec)}, "", "harness reference disagrees with package time")
 		c.Case(E_BlindingDate, [][]byte{i64(sec)}, func() Obs { return OK([]byte(time.Unix(sec, 0).UTC().Format("2006-01-02"))) })
 	}
+}
+
+func tail7(b []byte) []byte {
+	if len(b) < 7 {
+		return b
+	}
+	return b[len(b)-7:]
 }
